@@ -413,6 +413,7 @@ def check_write_image(ctx, tu, f):
     pix_param = [p['name'] for p in f['params'] if p['ct'].rstrip().rstrip('const').rstrip().endswith('*')
                  and 'char' not in p['ct'].split('*')[0].replace('unsigned char', '')]
     reads, writes, fwrites, allocs = [], [], [], []
+    dyn_stack = []          # alloca() blocks: released only when the function returns
     try:
         def walk(n, stack):
             k = n.get('kind')
@@ -557,6 +558,7 @@ def check_write_image(ctx, tu, f):
                             img.decl_stack[vd['id']] = list(stack)
                             if pv[0] == 'alloc':
                                 allocs.append((vd, pv, list(stack)))
+                                dyn_stack.append((vd, pv, list(stack)))
                                 img.locals[vd['id']] = ('ptr', '@' + vd.get('name', 'buf'), Poly.const(0), pv[2] if len(pv) > 2 else 1)
                         else:
                             v = img.ev().ev(init)
@@ -740,6 +742,23 @@ def check_write_image(ctx, tu, f):
         return
     loops = img.loops
     by_name = {l['name']: l for l in loops.values()}
+    # ---- memory obtained with alloca() stays allocated until writeImage returns: executed inside a loop it piles up
+    for vd_, pv_, st_ in dyn_stack:
+        runs = [loops[v_] for v_ in st_ if v_ in loops]
+        counts = [l_.get('count') if l_.get('count') is not None else l_.get('bound') for l_ in runs]
+        if not runs or all(c_ is not None and c_.const_value() is not None for c_ in counts):
+            continue          # once per call, or a fixed number of times
+        total = pv_[1]
+        for c_ in counts:
+            total = total * c_ if (total is not None and c_ is not None) else None
+        ctx.violation(R, inst, 'the row buffer `%s` is obtained with alloca() inside the loop over `%s`: alloca memory is released only '
+                      'when writeImage returns, so every iteration adds another %s bytes and the call needs %s bytes of stack -- the '
+                      'whole encoded image instead of one row. An image of ordinary size (e.g. 1024 x 4096 pixels) exhausts the '
+                      'stack and the writer crashes after a prefix of the rows'
+                      % (vd_.get('name'), ', '.join(l_['name'] for l_ in runs), show(pv_[1]),
+                         show(total) if total is not None else 'a multiple of that'),
+                      tu.loc(tu.kids(vd_)[0]) if tu.kids(vd_) else tu.fn_loc(f), key=keyb + 'stack-buffer-per-iteration')
+        good = False
 
     def rng(stack):
         return [(('sym', loops[v]['name']), loops[v]['count']) for v in stack]
@@ -1572,12 +1591,140 @@ def check_purity(ctx, tu):
     ctx.floor(R, n, 12, 'six writeImage instantiations and six format wrappers')
 
 
+# =====================================================================================================
+#  R-C20-12: the image is written to the file the caller named
+# =====================================================================================================
+NAME_PARTS = {'substr', 'erase', 'replace', 'resize', 'pop_back', 'assign'}
+
+
+def check_image_destination(ctx, tu, f):
+    """writeImage produces its output in the file `fileName`: either that file itself is opened, or a temporary whose name
+    contains the complete `fileName` (so that distinct targets never share a temporary) and which is renamed onto it"""
+    R = 'R-C20-12'
+    inst = 'writeImage<%s> destination' % ', '.join(f.get('targs') or [])
+    keyb = '%s|%s|writeImage|' % (R, tu.fn_file(f))
+    names = [p for p in f.get('params', []) if 'basic_string' in p['ct'] or p['ct'].replace('const ', '').startswith('std::string')]
+    if len(names) != 1:
+        ctx.undecided(R, inst, 'cannot identify the file name parameter', tu.fn_loc(f))
+        return
+    name_id = names[0]['id']
+
+    def unwrap(e):
+        x = tu.strip(e, casts=True)
+        hops = 0
+        while x is not None and hops < 6 and x.get('kind') in ('CXXConstructExpr', 'MaterializeTemporaryExpr', 'CXXBindTemporaryExpr',
+                                                                'ExprWithCleanups', 'CXXFunctionalCastExpr') and len(tu.kids(x)) >= 1 and \
+                len([k_ for k_ in tu.kids(x) if k_.get('kind') != 'CXXDefaultArgExpr']) == 1:
+            x = tu.strip(tu.kids(x)[0], casts=True)
+            hops += 1
+        return x
+
+    def cls(e, env, depth=0):
+        """(class, root variable id): 'whole' = exactly the file name; 'extends' = a string that contains the whole file name;
+        'partial' = built from a piece of it; None = not related / not understood"""
+        x = unwrap(e)
+        if x is None or depth > 8:
+            return None, None
+        k = x.get('kind')
+        if k == 'DeclRefExpr':
+            did = x.get('referencedDecl', {}).get('id')
+            if did == name_id:
+                return 'whole', did
+            if did in env:
+                return cls(env[did][0], env[did][1], depth + 1)
+            vd = tu.node(did)
+            if vd is not None and vd.get('kind') == 'VarDecl' and tu.kids(vd):
+                c_, r_ = cls(tu.kids(vd)[0], env, depth + 1)
+                return c_, (did if c_ in ('extends', 'partial') else r_)
+            return None, None
+        if k == 'CXXMemberCallExpr':
+            sd, obj, args = tu.call_parts(x)
+            nm = sd.get('q', '').split('::')[-1]
+            if obj is None or 'basic_string' not in sd.get('q', ''):
+                return None, None
+            c_, r_ = cls(obj, env, depth + 1)
+            if c_ is None:
+                return None, None
+            if nm in ('c_str', 'data'):
+                return c_, r_
+            if nm in NAME_PARTS:
+                return 'partial', r_
+            return None, None
+        if (k == 'CXXOperatorCallExpr' or k == 'CallExpr') and tu.sd(x).get('q', '').split('::')[-1] == 'operator+':
+            parts = [cls(a, env, depth + 1)[0] for a in (tu.kids(x)[1:])]
+            if 'partial' in parts:
+                return 'partial', None
+            if 'whole' in parts or 'extends' in parts:
+                return 'extends', None
+            return None, None
+        return None, None
+
+    opens, renames = [], []
+    todo, seen = [(f, {})], set()
+    while todo:
+        fn, env = todo.pop()
+        if fn['id'] in seen:
+            continue
+        seen.add(fn['id'])
+        for x in tu.walk(tu.body(fn)):
+            if x.get('kind') not in ('CallExpr', 'CXXMemberCallExpr'):
+                continue
+            q = tu.sd(x).get('q', '')
+            args = tu.call_parts(x)[2]
+            if q in ('fopen', 'std::fopen', 'fopen64') and args:
+                opens.append((x, cls(args[0], env), env))
+            elif q in ('rename', 'std::rename') and len(args) == 2:
+                renames.append((x, cls(args[0], env), cls(args[1], env)))
+            else:
+                cf_ = tu.callee_fn(x)
+                if cf_ is not None and cf_['q'].startswith(UTIL) and tu.body(cf_) is not None and len(seen) < 20:
+                    env2 = dict(env)
+                    for p_, a2 in zip(cf_.get('params', []), args):
+                        env2[p_['id']] = (a2, env)
+                    todo.append((cf_, env2))
+    if not opens:
+        ctx.undecided(R, inst, 'no fopen found in writeImage or the helpers it calls', tu.fn_loc(f))
+        return
+    good = True
+    for x, (c_, root), env in opens:
+        a0 = tu.call_parts(x)[2][0]
+        if c_ == 'whole':
+            continue
+        if c_ == 'partial':
+            vd = tu.node(root) if root else None
+            src = tu.show(tu.kids(vd)[0]) if vd is not None and tu.kids(vd) else tu.show(a0)
+            ctx.violation(R, inst, 'the image is written to `%s` = `%s`, a name built from a piece of the file name: targets that differ '
+                          'only in the dropped part (frame.ppm / frame.pfm, the usual way of saving the channels of one frame) share '
+                          'this file; two writers running at the same time write over each other and only one rename finds the '
+                          'file, so one target is garbage and the other is missing' % (tu.show(a0), src), tu.loc(x),
+                          key=keyb + 'temporary-name-not-unique')
+            good = False
+            continue
+        if c_ == 'extends':
+            moved = [r for r in renames if r[1][0] == 'extends' and r[2][0] == 'whole' and (root is None or r[1][1] == root)]
+            if moved:
+                continue
+            ctx.violation(R, inst, 'the image is written to `%s`, which is not the file the caller named, and is never renamed onto it'
+                          % tu.show(a0), tu.loc(x), key=keyb + 'written-to-other-file')
+            good = False
+            continue
+        ctx.undecided(R, inst, 'the path `%s` given to fopen is not derived from the file name parameter in a recognised way'
+                      % tu.show(a0), tu.loc(x))
+        good = False
+    if good:
+        ctx.ok(R, inst, '%d fopen(s): the file name parameter itself, or a temporary that contains it and is renamed onto it'
+               % len(opens), tu.fn_loc(f))
+
+
+
 def check_images(ctx, tu):
     ctx.describe('R-C20-1', 'per writeImage instantiation: loops y<sizeY, x<sizeX, c<N; source index = row(y)*sizeX pixels + '
                  'PIXEL_COMP*x + channel(c) with 0 <= channel(c) < PIXEL_COMP; sizeof(PIXEL_T) == PIXEL_COMP*sizeof(COMP_T); '
                  'output index N*x+c; N*sizeX*sizeof(COMP_T) bytes per row')
     ctx.describe('R-C20-2', 'format table: magic <-> component type/count, `%i %i` fed (sizeX,sizeY), maxval 255 / negative '
                  'scale, rows flipped exactly for PPM/PGM, arguments handed through')
+    ctx.describe('R-C20-12', 'writeImage opens the file named by its fileName parameter, or a temporary whose name contains the '
+                 'whole fileName and which is renamed onto it')
     n = 0
     headers_of = check_wrappers(ctx, tu) or {}
     for f in sorted(tu.fns(q=UTIL + 'writeImage', dep=False), key=lambda x: str(x.get('targs'))):
@@ -1586,6 +1733,7 @@ def check_images(ctx, tu):
         n += 1
         check_write_image(ctx, tu, f)
         check_header_use(ctx, tu, f, headers_of.get(f['id']))
+        check_image_destination(ctx, tu, f)
     ctx.floor('R-C20-1', n, 6, 'writeImage instantiations reachable from the six format wrappers')
     check_purity(ctx, tu)
 
@@ -2769,6 +2917,7 @@ def check_registry(ctx, tu, R):
 
         writes = []
         removes = []
+        taken = []
         for b, i, x in g.stmts():
             k = x.get('kind')
             if k == 'CXXOperatorCallExpr' and tu.sd(x).get('q', '').split('::')[-1] == 'operator=':
@@ -2782,12 +2931,27 @@ def check_registry(ctx, tu, R):
                     removes.append((b.id, i, x))
                 if obj is not None and tu.member_of_this(obj) == 'threadTrace' and nm == 'insert_or_assign':
                     writes.append((b.id, i, x))
+                if nm == 'swap' and args and ((obj is not None and tu.member_of_this(obj) == 'threadTrace') or
+                                              tu.member_of_this(tu.strip(args[0], casts=True)) == 'threadTrace'):
+                    taken.append((b.id, i, x))
+            if k == 'CallExpr' and tu.sd(x).get('q') in ('std::move', 'std::swap', 'std::exchange') and \
+                    any(tu.member_of_this(tu.strip(a_, casts=True)) == 'threadTrace' for a_ in tu.call_parts(x)[2]):
+                taken.append((b.id, i, x))
+            if k == 'CXXOperatorCallExpr' and tu.sd(x).get('q', '').split('::')[-1] == 'operator=' and \
+                    tu.call_parts(x)[1] is not None and tu.member_of_this(tu.call_parts(x)[1]) == 'threadTrace':
+                taken.append((b.id, i, x))
                 if obj is not None and is_slot(obj) and nm in ('reset', 'swap'):
                     writes.append((b.id, i, x))
         good = True
         for bid, i, x in removes:
             ctx.violation(R, inst, '`%s` removes entries of the registry: the events recorded by those threads are no longer written by '
                           'saveLog' % tu.show(x), tu.loc(x), key=keyb + 'registry-entry-removed')
+            good = False
+        for bid, i, x in taken:
+            ctx.violation(R, inst, '`%s` moves the content of the registry out of the recorder: every thread that has recorded before '
+                          'keeps its list in its thread-local cache and goes on appending to it, but the recorder no longer knows '
+                          'that list, so nothing these threads record afterwards is written by any later saveLog'
+                          % tu.show(x), tu.loc(x), key=keyb + 'registry-entry-removed')
             good = False
         # edges on which the entry is known to be absent / empty
         absent_edges = set()
@@ -3479,6 +3643,77 @@ def flows_into(tu, e, body, depth=0, seen=None):
     return names
 
 
+def registry_transfers(tu, f):
+    """local containers that receive the content of the registry threadTrace as a whole:
+    decl id -> dict(how = 'copy' (the registry keeps its entries) | 'taken' (swap / move: the registry loses them), node, name)"""
+    out = {}
+
+    def is_reg(e):
+        x = tu.strip(e, casts=True)
+        return x is not None and tu.member_of_this(x) == 'threadTrace'
+
+    def moved_reg(e):
+        x = tu.strip(e, casts=True)
+        hops = 0
+        while x is not None and hops < 4 and x.get('kind') in ('CXXConstructExpr', 'MaterializeTemporaryExpr', 'CXXBindTemporaryExpr') \
+                and len(tu.kids(x)) == 1:
+            x = tu.strip(tu.kids(x)[0], casts=True)
+            hops += 1
+        return x is not None and x.get('kind') == 'CallExpr' and tu.sd(x).get('q') == 'std::move' and \
+            tu.call_parts(x)[2] and is_reg(tu.call_parts(x)[2][0])
+
+    def local(e):
+        did = tu.ref_decl(tu.strip(e, casts=True)) if e is not None else None
+        vd = tu.node(did) if did else None
+        if vd is not None and vd.get('kind') == 'VarDecl' and not is_ref(vd):
+            return vd
+        return None
+
+    def is_ref(vd):
+        t = vd.get('type', {})
+        return (t.get('desugaredQualType') or t.get('qualType', '')).rstrip().endswith('&')
+
+    def note(vd, how, node):
+        cur = out.get(vd['id'])
+        if cur is None or how == 'taken':
+            out[vd['id']] = {'how': how, 'node': node, 'name': vd.get('name')}
+
+    for n in tu.walk(tu.body(f)):
+        k = n.get('kind')
+        if k == 'VarDecl' and tu.kids(n) and not is_ref(n) and \
+                re.match(r'^std::(unordered_map|map)<std::thread::id,', re.sub(r'\bconst\s+', '', tu.sd(n['id']).get('ct', '') or
+                                                                             n.get('type', {}).get('desugaredQualType', '') or
+                                                                             n.get('type', {}).get('qualType', ''))):
+            init = tu.strip(tu.kids(n)[0], casts=True)
+            if init is not None and init.get('kind') == 'CXXConstructExpr' and len(tu.kids(init)) == 1:
+                a0 = tu.kids(init)[0]
+                if is_reg(a0):
+                    note(n, 'copy', n)
+                elif moved_reg(a0):
+                    note(n, 'taken', n)
+        if k == 'CXXOperatorCallExpr' and tu.sd(n).get('q', '').split('::')[-1] == 'operator=':
+            sd, obj, args = tu.call_parts(n)
+            vd = local(obj)
+            if vd is not None and args:
+                if is_reg(args[0]):
+                    note(vd, 'copy', n)
+                elif moved_reg(args[0]):
+                    note(vd, 'taken', n)
+        if k == 'CXXMemberCallExpr' and tu.sd(n).get('q', '').split('::')[-1] == 'swap':
+            sd, obj, args = tu.call_parts(n)
+            if args and is_reg(args[0]) and local(obj) is not None:
+                note(local(obj), 'taken', n)
+            elif args and is_reg(obj) and local(args[0]) is not None:
+                note(local(args[0]), 'taken', n)
+        if k == 'CallExpr' and tu.sd(n).get('q') == 'std::swap':
+            args = tu.call_parts(n)[2]
+            if len(args) == 2:
+                for r_, l_ in ((args[0], args[1]), (args[1], args[0])):
+                    if is_reg(r_) and local(l_) is not None:
+                        note(local(l_), 'taken', n)
+    return out
+
+
 def derived_thread_containers(tu, f):
     """local containers filled inside a range-for over the registry threadTrace:
     decl id -> dict(type, unique (bool), key names, node, loopvar)"""
@@ -3604,6 +3839,7 @@ def check_iteration(ctx, tu, f, R):
                 walk(c, lctx, fn, env, depth)
 
     derived = derived_thread_containers(tu, f)
+    transfers = registry_transfers(tu, f)
     walk(tu.body(f), [], f, {}, 0)
     good = True
     if not ev_loops:
@@ -3632,6 +3868,10 @@ def check_iteration(ctx, tu, f, R):
                 ctx.undecided(R, inst, 'the threads are collected into `%s` with a key that is not recognised as the thread id '
                               '(depends on %s)' % (dv['name'], sorted(str(k) for k in dv['keys'])), tu.loc(dv['node']))
                 good = False
+        elif th['range'] is not None and tu.ref_decl(th['range']) in transfers:
+            # the registry as a whole was copied / taken into this local: it holds every entry the registry had (whether the
+            # registry may lose them is the registry clause)
+            notes.append('threads from the snapshot `%s`' % transfers[tu.ref_decl(th['range'])]['name'])
         elif th['range'] is None or tu.member_of_this(th['range']) != 'threadTrace':
             ctx.violation(R, inst, 'the thread loop ranges over `%s`; required the registry threadTrace' % tu.show(th['range']),
                           tu.loc(th['node']), key=keyb + 'outer-range')
@@ -3872,10 +4112,28 @@ def check_locked(ctx, tu, f, R, quiet=False):
         lb, li, lvd = locks[0]
         if not all(g.dominates((lb, li), (b, i)) for b, i, n in acc):
             bad = 'an access to threadTrace is not dominated by the lock of threadTraceMutex'
-        # the guard must live until the function ends: its declaration is a direct child of the function body
+        # the guard must be alive at every access: each one lies in the block the guard is declared in
         par = tu.par(tu.par(lvd))
         if bad is None and (par is None or par.get('id') != tu.body(f).get('id')):
-            bad = 'the lock guard is scoped to an inner block and is released before the function ends'
+            def inside(x_):
+                hops = 0
+                while x_ is not None and hops < 200:
+                    if par is not None and x_.get('id') == par.get('id'):
+                        return True
+                    x_ = tu.par(x_)
+                    hops += 1
+                return False
+            # names bound to the registry or to something inside it (references, iterators) extend the access
+            aliases = set()
+            for y in tu.walk(tu.body(f)):
+                if y.get('kind') == 'VarDecl' and tu.kids(y) and \
+                        re.search(r'[&*]|iterator', y.get('type', {}).get('qualType', '')) and \
+                        any(z.get('kind') == 'MemberExpr' and tu.member_of_this(z) == 'threadTrace' for z in tu.walk(tu.kids(y)[0])):
+                    aliases.add(y['id'])
+            uses = [n for b, i, n in acc] + [y for y in tu.walk(tu.body(f)) if y.get('kind') == 'DeclRefExpr' and
+                                             y.get('referencedDecl', {}).get('id') in aliases]
+            if par is None or not all(inside(n_) for n_ in uses):
+                bad = 'the lock guard is scoped to an inner block and is released while the registry threadTrace is still in use'
         for b, i, n in g.stmts():
             if n.get('kind') == 'CXXMemberCallExpr' and tu.sd(n).get('q', '').endswith('::unlock'):
                 bad = bad or 'the lock is released explicitly'
